@@ -3,11 +3,11 @@ histories on the virtual clock.  stdin JSON {"cases": [...]} -> 'RESULT <json li
 
 Case (all times in milliseconds relative to the instant the trigger is defined):
   {"sub": "legacy"|"dm", "form": "dec"|"wu", "cn": null|false|true, "hold": null|ms, "hf": null|ms,
-   "anyvar": bool, "init": bool, "ev": [[t_ms, kind], ...], "tail": ms}
+   "anyvar": bool, "init": bool, "ev": [[t_ms, kind], ...], "tail": ms, "tmo": ms (optional; task.wait_until timeout=)}
 kinds: "T"/"F" watched value change making the expression true/false, "A" value change of pyscript.w (an any-change
 trigger iff anyvar, otherwise an unwatched entity), "I" attribute-only update of the watched entity, "U" unwatched entity.
 Every state write number k (1-based position in "ev") carries attribute n=k, so the kwargs of a run identify the event
-that supplied them.  Observation: {"runs": [[t_ms_float, n, consistent]], "err": [...]}.
+that supplied them; a {"trigger_type": "timeout"} result of task.wait_until is reported as n = 1000000.  Observation: {"runs": [[t_ms_float, n, consistent]], "err": [...]}.
 """
 import json
 import sys
@@ -15,6 +15,7 @@ import sys
 from vh.hassenv import PyscriptEnv, run_virtual
 
 EXPR = "pyscript.v >= 't'"
+TIMEOUT_ID = 1000000
 
 REPORT = """
     v = kw.get("value")
@@ -41,6 +42,8 @@ def make_script(case):
         kws.append(f"state_hold_false={pyval(case['hf'])}")
     if case["cn"] is not None:
         kws.append(f"state_check_now={pyval(case['cn'])}")
+    if case.get("tmo") is not None and case["form"] == "wu":
+        kws.append(f"timeout={pyval(case['tmo'])}")
     trig = [repr(EXPR)] + (["'pyscript.w'"] if case["anyvar"] else [])
     if case["form"] == "dec":
         head = "@state_trigger(" + ", ".join(trig + kws) + ")\ndef pv_f(**kw):"
@@ -86,7 +89,10 @@ async def run_case(case):
         runs = []
         for (t, _typ, d) in env.events:
             n = d.get("n", -1)
-            if d.get("var") is None:
+            if d.get("tt") == "timeout":
+                ok = d.get("keys") == ["trigger_type"] and case.get("tmo") is not None
+                n = TIMEOUT_ID
+            elif d.get("var") is None:
                 # definition-time trigger: only trigger_type (the new subsystem may add nothing else either)
                 ok = d.get("tt") == "state" and n == -1 and set(d.get("keys", [])) <= {"trigger_type", "context"}
                 n = 0
